@@ -103,4 +103,33 @@ def vOverflow (sp : Char → Bool) (extW extH : Str → Rat) (lines : List Str) 
 def hOverflowLines (sp : Char → Bool) (extW : Str → Rat) (lines : List Str) (width iconPadding iconSize : Rat) : List Str :=
   wordWrap sp extW (width - iconSize - iconPadding) lines
 
+/-- `max(w for w, _ in map(extent_func, lines))` (`word_wrap` never returns an empty list) -/
+def maxWidth (extW : Str → Rat) : List Str → Rat
+  | [] => 0
+  | l :: ls => ls.foldl (fun m x => max m (extW x)) (extW l)
+
+/-- `text_height` at the end of `check_for_vertical_overflow`: the heights of the lines that fitted -/
+def fitHeight (extH : Str → Rat) (height : Rat) (lines : List Str) : Rat :=
+  ((fitLoop extH height 0 none lines).1.map extH).foldl (· + ·) 0
+
+/-- one iteration of `for label in builder.labels` in `svg.drawing.render_hbounded_lines`:
+`check_for_horizontal_overflow` (`assert max_text_width >= 0`), then `check_for_vertical_overflow` with the
+width of the widest wrapped line (`assert height >= text_height`); `none` = `AssertionError` -/
+def renderLabel (sp : Char → Bool) (extW extH : Str → Rat) (text : List Str) (rectW rectH iconPadding iconSize : Rat) :
+    Option (List Str) :=
+  if rectW - iconSize - iconPadding < 0 then none
+  else
+    let lines := hOverflowLines sp extW text rectW iconPadding iconSize
+    if rectH < fitHeight extH rectH lines then none
+    else some (vOverflow sp extW extH lines rectH (maxWidth extW lines))
+
+/-- `lines_to_render` of `render_hbounded_lines` for all labels of a builder -/
+def renderLabels (sp : Char → Bool) (extW extH : Str → Rat) (rectW rectH iconPadding iconSize : Rat) :
+    List (List Str) → Option (List Str)
+  | [] => some []
+  | t :: ts =>
+    match renderLabel sp extW extH t rectW rectH iconPadding iconSize, renderLabels sp extW extH rectW rectH iconPadding iconSize ts with
+    | some a, some b => some (a ++ b)
+    | _, _ => none
+
 end Capella.Wrap
